@@ -94,7 +94,7 @@ fn arrive(a: &Arrival) -> Result<[u8; 32], String> {
 
 pub fn merge_points(run: &Run, total: &mut SweepOut) -> Value {
     let cap = std::env::var("VERIF_MERGE_CAP").ok().and_then(|s| s.parse().ok()).unwrap_or(if run.tier == Tier::Quick { 8 } else { 10 });
-    let cfg = Config { cap, shapes: vec![Shape::Leaf, Shape::Chain2, Shape::Fan2], uid_tokens: vec![], refs: false, overlapping_multi: true };
+    let cfg = Config { cap, shapes: vec![Shape::Leaf, Shape::Chain2, Shape::Fan2], uid_tokens: vec![], refs: false, overlapping_multi: true, triples: false };
     struct St {
         model: Model,
         history: Vec<Op>,
